@@ -185,12 +185,12 @@ pub fn def() -> PropertyDef {
     PropertyDef {
         id: "C05",
         level: "exploration",
-        rule: "Histories of 1..80 operations over 4 names x 4 types x 3 values on the virtual clock (hook H1): insert with TTL in {0,1,2,5,300,u32::MAX}, re-insert, lookup by type, ANY lookup, unchecked lookup, prune, advance by {1 ns, 1 ms, 999 ms, 1 s, ttl-1 ms, ttl, ttl+1 ms, 1 h}; against SharedCache (5/6) or Cache (1/6). Oracle: a map (name,type,data) -> expiry; after every lookup each returned record is in the model, unexpired, data unchanged, reported TTL <= time left, and every model record with >= 1 s left is returned exactly once; after every operation the stored set read through the inspection hook (H4) equals the model (nothing lost, resurrected, duplicated or re-timed); TTL-0 inserts leave the shared cache unchanged. Non-trivial = some lookup returned a record after time had passed since its insertion; distinct by hash of the history. resolver-level: through resolve() in recursive or forwarding mode against a mock upstream (hook H2): a record with TTL 1..300 s is learnt, upstream then changes it, the question is repeated 1 ms..1.5 s before expiry (answer = old value with reported TTL <= time left, or already the new value) and 0..60 s after expiry (answer must be the new value, never the old one), with and without prune calls in between; every such case is non-trivial.",
+        rule: "Histories of 1..80 operations over 4 names x 4 types x 3 values on the virtual clock (hook H1): insert with TTL in {0,1,2,5,300,u32::MAX}, re-insert, lookup by type, ANY lookup, unchecked lookup, prune, advance by {1 ns, 1 ms, 999 ms, 1 s, ttl-1 ms, ttl, ttl+1 ms, 1 h}; against SharedCache (5/6) or Cache (1/6). Oracle: a map (name,type,data) -> expiry; after every lookup each returned record is in the model, unexpired, data unchanged, reported TTL <= time left, and every model record with >= 1 s left is returned exactly once; after every operation the stored set read through the inspection hook (H4) equals the model (nothing lost, resurrected, duplicated or re-timed); TTL-0 inserts leave the shared cache unchanged. Non-trivial = some lookup returned a record after time had passed since its insertion; distinct by hash of the history. resolver-level: through resolve() in recursive or forwarding mode against a mock upstream (hook H2): a record with TTL 1..300 s is learnt, upstream then changes it, the question is repeated 1 ms..1.5 s before expiry (answer = old value with reported TTL <= time left, or already the new value) and 0..60 s after expiry (answer must be the new value, never the old one), with and without prune calls in between; every such case is non-trivial. nothing-lost (shared with C15): several threads insert singly and in batches into a cache far larger than what they insert; at quiescence every inserted record is stored (a record that has neither expired nor been evicted is returned).",
         assumptions: vec![
             "records with 0 < remaining < 1 s may or may not be returned (the cache reports whole seconds)",
             "eviction by prune is validated by C15 and then adopted by the model",
         ],
-        parts: vec![Box::new(Histories), Box::new(ResolverLevel)],
+        parts: vec![Box::new(Histories), Box::new(ResolverLevel), Box::new(super::c15::NothingLost)],
         budget_s: |t| t.pick(600, 7200),
         needs_repo_bins: false,
     }
